@@ -526,6 +526,17 @@ def run_chain(scn, *, faults=(), region=None, solver_fail_at=None, n_iter=None, 
 def judge_transition(ctx, mon, before, before_finite, new_state, stats, scn, input_state=None):
     """C12 items 2-4 for one returned transition."""
     metrop = scn["transition"]["type"] in ("static", "random")
+    if input_state is not None:
+        with paused(ctx):
+            try:
+                h0 = float(mon.system.h(input_state)) if new_state is input_state or True else None
+            except Exception:  # noqa: BLE001
+                h0 = None
+        if h0 is not None and not math.isfinite(h0) and ctx.fired:
+            # the fault hit the energy of the state the chain already sits in (value cached by the transition):
+            # a model that is NaN/inf at the current state is outside the property
+            ctx.count("unjudged_faulted_input_energy")
+            return
     pos_ok = bool(np.all(np.isfinite(new_state.pos)) and np.all(np.isfinite(new_state.mom)))
     if before_finite and not pos_ok:
         ctx.violations.append(violation("non-finite-state", f"non-finite-state:{scn['transition']['type']}",
